@@ -213,6 +213,9 @@ def scan(cfg):
                         funcs[ctx]["callees"].add("*?")
                 if k == "DeclRefExpr" and n.get("referencedDecl", {}).get("kind") == "VarDecl" and n["referencedDecl"].get("id") not in locals_:
                     funcs[ctx]["grefs"].add(n["referencedDecl"].get("name"))
+                if k in ("GCCAsmStmt", "MSAsmStmt"):
+                    funcs[ctx]["stores"] += 1                  # inline assembly may store anywhere and call anything
+                    funcs[ctx]["callees"].add("*asm")
                 lhs = None
                 if k in ("BinaryOperator", "CompoundAssignOperator") and n.get("opcode", "").endswith("=") and n.get("opcode") not in ("==", "!=", "<=", ">="):
                     lhs = n["inner"][0]
